@@ -112,6 +112,7 @@ type ILLoop struct {
 	Key      string
 	Pos      token.Pos // source position of the loop statement
 	Spec     *LoopSpec
+	CopyOf   *ILLoop // the first inlined copy of the same source loop (shares key and clauses)
 	Inv      []InvClause // elaborated invariants (text with @{} tokens)
 	Modified []*MVar
 }
